@@ -409,6 +409,31 @@ pub fn gen_driver(prop: &str, rng: &mut Rng, sh: &mut Shards, out: &str, thoroug
                 }
                 progs.push((p, Layout::random(rng)));
             }
+            // every way a run ends with code still following (a return with no call pending after falling into a procedure,
+            // a divide error, an unsupported service, a halt in the middle): plain, with -i and with the trap flag set, the
+            // run ends there in all three and nothing after it is executed or prompted for
+            let inc = |r: &'static str| Item::Ins(Ins::UnArith { op: "inc", w: 16, dst: Opnd::Reg16(r) });
+            for kind in 0..4 {
+                for mode in 0..3 {
+                    let mut items: Vec<Item> = vec![Item::Label("start".into())];
+                    if mode == 2 {
+                        items.push(Item::Ins(Ins::Mov { w: 16, dst: Opnd::Reg16("ax"), src: Opnd::Imm(0x0100) }));
+                        items.push(Item::Ins(Ins::Push { src: Opnd::Reg16("ax") }));
+                        items.push(Item::Ins(Ins::FlagsX { op: "popf" }));
+                    }
+                    items.push(inc("si"));
+                    match kind {
+                        0 => items.push(Item::Proc { name: "mid_P".into(), body: vec![inc("bx")] }),
+                        1 => { items.push(Item::Ins(Ins::Mov { w: 16, dst: Opnd::Reg16("cx"), src: Opnd::Imm(0) })); items.push(Item::Ins(Ins::UnArith { op: "div", w: 16, dst: Opnd::Reg16("cx") })); }
+                        2 => { items.push(Item::Ins(Ins::Mov { w: 16, dst: Opnd::Reg16("ax"), src: Opnd::Imm(0x7700) })); items.push(Item::Ins(Ins::Int { n: 0x21 })); }
+                        _ => items.push(Item::Ins(Ins::Ctl { op: "hlt" })),
+                    }
+                    items.push(inc("di"));
+                    items.push(Item::Ins(Ins::Print { what: PrintWhat::Reg }));
+                    items.push(inc("dx"));
+                    progs.push((Program { data: Vec::new(), items, interp: mode == 1, stdin: nexts(rng, 30), note: format!("ends-early-{}-{}", kind, mode) }, Layout::plain()));
+                }
+            }
         }
         "C18" => {
             let mov16 = |r: &'static str, v: u16| Item::Ins(Ins::Mov { w: 16, dst: Opnd::Reg16(r), src: Opnd::Imm(v as i32) });
